@@ -1,31 +1,467 @@
-//! C09 — placeholder (not registered in MANIFEST until built).
+//! C09 — a scheduler pass is all-or-nothing and strictly ordered.
+//!
+//! Scheduled parties: clients delivering intents to 1–3 worldlines × 1–4 writer heads, and the
+//! scheduler passes between them. Faults: a poisonous intent (executor panic, footprint violation,
+//! op that cannot apply) in any head's batch at any pass, missing root instance / worldline tick
+//! overflow / global tick overflow (runtime pokes, hook H7), followed by further passes and trusted
+//! fault resolution. Oracle: on a failed pass every top-level field of the runtime, the whole
+//! provenance service and the engine equal their pre-pass fingerprints except fault evidence;
+//! successful passes follow the reference coordinator (canonical head order, admitted counts,
+//! tick accounting); faulted heads stay quarantined without blocking unrelated heads.
+
+use std::collections::{BTreeMap, BTreeSet};
 
 use serde::{Deserialize, Serialize};
+use warp_core::{
+    GlobalTick, NodeId, NodeKey, ProvenanceStore, SchedulerCoordinator, SchedulerFaultRecoveryAuthority, SchedulerFaultScope,
+    SchedulerFaultStatus, TickReceiptDisposition, WorldlineTick,
+};
 
 use crate::kernel::{Outcome, PropertySpec, Rng, RunCtx, Scenario, Tier};
+use crate::model::refinbox::{ref_ingress_id, RefDisposition, RefRuntime};
+use crate::props::c01::knobs;
+use crate::world::ids;
+use crate::world::prog::{accesses_conflict, declared_accesses, Decl, FpClass, Step, N};
+use crate::world::rules::rule_id;
+use crate::world::runtime::{gen_intent, gen_world, wl_id, Intent, PassResult, World, WorldSpec};
 
 pub const SPEC: PropertySpec = PropertySpec {
     id: "C09",
-    level: "exploration",
-    rule: "placeholder",
-    quick_runs: 1,
-    thorough_runs: 1,
-    real_components: &[],
-    stub_components: &[],
-    assumptions: &[],
-    fault_kinds: &[],
+    level: "fault_enumeration",
+    rule: "scenario = world (1-3 worldlines x 1-4 heads, seeded inbox policies/routing) + op tape of Deliver/Pass/Poke/ResolveAll with 0-2 poisonous intents (panic, undeclared access, cross-instance write, instance op, inapplicable op) aimed at seeded heads and passes, runtime pokes (frontier tick MAX, root instance deleted, global tick MAX) and trusted fault resolution; non-trivial = a pass failed while >=1 other head had admissible work, or a pass committed >=2 heads; distinct = hash of scenario",
+    quick_runs: 2_500,
+    thorough_runs: 200_000,
+    real_components: &["SchedulerCoordinator::super_tick", "WorldlineRuntime (ingest, checkpoint/restore, fault records, resolve_scheduler_fault)", "ProvenanceService (checkpoint_for/restore, append_local_commit)", "Engine::commit_with_state + RuntimeCommitStateGuard", "HeadInbox admit"],
+    stub_components: &["application rules: data-driven interpreter; poisonous programs are generated data"],
+    assumptions: &["fault evidence fields (scheduler_faults, faulted_heads, runtime_fault, next_scheduler_fault_generation, runnable) may change on a failed pass; everything else must be restored", "fault scope (head vs runtime) is taken from the recorded fault, not prescribed by the oracle"],
+    fault_kinds: &["fault.executor_panic", "fault.footprint_violation", "fault.inapplicable_op", "fault.missing_root_instance", "fault.frontier_tick_overflow", "fault.global_tick_overflow"],
 };
 
 #[derive(Clone, Debug, Serialize, Deserialize)]
+pub enum Poke {
+    FrontierMax { wl: u8 },
+    DeleteRoot { wl: u8 },
+    GlobalMax,
+}
+
+#[derive(Clone, Debug, Serialize, Deserialize)]
+pub enum Op {
+    Deliver(Intent),
+    Pass,
+    Poke(Poke),
+    ResolveAll,
+}
+
+#[derive(Clone, Debug, Serialize, Deserialize)]
 pub struct C09 {
-    pub placeholder: u8,
+    pub world: WorldSpec,
+    pub ops: Vec<Op>,
+}
+
+const EVIDENCE_FIELDS: [&str; 5] = ["scheduler_faults", "faulted_heads", "runtime_fault", "next_scheduler_fault_generation", "runnable"];
+
+fn poison(rng: &mut Rng, base: &Intent) -> (Intent, &'static str) {
+    let mut i = base.clone();
+    i.prog.nonce |= 0x2000_0000;
+    match rng.below(5) {
+        0 => {
+            i.prog.steps.push(Step::Panic);
+            (i, "fault.executor_panic")
+        }
+        1 => {
+            // undeclared read of a node (performed unconditionally)
+            i.prog.steps.insert(0, Step::ReadNode(N::D(0)));
+            i.prog.decl = Decl::Omit { class: FpClass::NRead, k: 0 };
+            (i, "fault.footprint_violation")
+        }
+        2 => {
+            i.prog.steps.push(Step::CrossWarpUpsert { w: 1, n: N::D(0), ty: 0 });
+            (i, "fault.footprint_violation")
+        }
+        3 => {
+            i.prog.steps.push(Step::InstanceOp { w: 2 });
+            (i, "fault.footprint_violation")
+        }
+        _ => {
+            // attachment on a node that does not exist: the merged ops cannot be applied
+            i.prog.steps = vec![Step::SetNodeAtt { n: N::P(9999, 0), val: Some(crate::world::prog::Val { ty: 0, bytes: vec![1] }) }];
+            (i, "fault.inapplicable_op")
+        }
+    }
 }
 
 impl Scenario for C09 {
-    fn generate(_rng: &mut Rng, _tier: Tier, _avoid: bool) -> Self {
-        C09 { placeholder: 0 }
+    fn generate(rng: &mut Rng, _tier: Tier, avoid: bool) -> Self {
+        let world = gen_world(rng, 3, 4, 4);
+        let mut kn = knobs(rng, avoid);
+        kn.absent_16 = 0;
+        let mut ops = Vec::new();
+        let n_rounds = rng.urange(2, 6);
+        let mut nonce = 1u32;
+        let mut poisons = rng.urange(0, 2);
+        let mut pokes = if rng.chance(1, 3) { 1 } else { 0 };
+        for _ in 0..n_rounds {
+            for _ in 0..rng.urange(0, 5) {
+                let base = gen_intent(rng, &world, nonce, &kn);
+                nonce += 1;
+                if poisons > 0 && rng.chance(1, 4) {
+                    poisons -= 1;
+                    ops.push(Op::Deliver(poison(rng, &base).0));
+                } else {
+                    ops.push(Op::Deliver(base.clone()));
+                    if rng.chance(1, 6) {
+                        ops.push(Op::Deliver(base)); // retry
+                    }
+                }
+            }
+            if pokes > 0 && rng.chance(1, 3) {
+                pokes -= 1;
+                let wl = rng.below(world.worldlines.len() as u64) as u8;
+                ops.push(Op::Poke(match rng.below(3) {
+                    0 => Poke::FrontierMax { wl },
+                    1 => Poke::DeleteRoot { wl },
+                    _ => Poke::GlobalMax,
+                }));
+            }
+            for _ in 0..rng.urange(1, 3) {
+                ops.push(Op::Pass);
+            }
+            if rng.chance(1, 3) {
+                ops.push(Op::ResolveAll);
+                ops.push(Op::Pass);
+            }
+        }
+        C09 { world, ops }
     }
-    fn execute(&self, _ctx: &mut RunCtx) -> Outcome {
+
+    fn execute(&self, ctx: &mut RunCtx) -> Outcome {
+        let mut w = match World::new(&self.world) {
+            Ok(w) => w,
+            Err(e) => return Outcome::violation("state_construction_failed", e),
+        };
+        let mut model = RefRuntime::new(&self.world);
+        let mut intents: BTreeMap<[u8; 32], Intent> = BTreeMap::new();
+        let mut broken_wl: BTreeSet<u8> = BTreeSet::new();
+        let mut global_max = false;
+        let mut nontrivial = false;
+        for (oi, op) in self.ops.iter().enumerate() {
+            match op {
+                Op::Deliver(intent) => {
+                    let (exp, _) = model.ingest(intent);
+                    let got = w.deliver(intent);
+                    let ok = match (&exp, &got) {
+                        (RefDisposition::Accepted, Ok(warp_core::IngressDisposition::Accepted { .. })) => true,
+                        (RefDisposition::Duplicate, Ok(warp_core::IngressDisposition::Duplicate { .. })) => true,
+                        (RefDisposition::RejectedByPolicy, Err(e)) => e.contains("RejectedByPolicy"),
+                        (RefDisposition::Unroutable, Err(_)) => true,
+                        _ => false,
+                    };
+                    if !ok {
+                        return Outcome::violation("ingest_disposition_mismatch", format!("op#{oi}: reference {exp:?}, runtime {got:?}"));
+                    }
+                    intents.insert(ref_ingress_id(intent), intent.clone());
+                    ctx.count("time.deliveries", 1);
+                }
+                Op::Poke(p) => match p {
+                    Poke::FrontierMax { wl } => {
+                        if warp_core::verif::set_frontier_tick(&mut w.runtime, &wl_id(*wl), WorldlineTick::MAX) {
+                            broken_wl.insert(*wl);
+                        }
+                    }
+                    Poke::DeleteRoot { wl } => {
+                        if warp_core::verif::delete_root_instance(&mut w.runtime, &wl_id(*wl)) {
+                            broken_wl.insert(*wl);
+                        }
+                    }
+                    Poke::GlobalMax => {
+                        warp_core::verif::set_global_tick(&mut w.runtime, GlobalTick::MAX);
+                        global_max = true;
+                    }
+                },
+                Op::ResolveAll => {
+                    let active: Vec<_> = w.runtime.scheduler_faults().filter(|f| matches!(f.status, SchedulerFaultStatus::Active)).map(|f| f.fault_id).collect();
+                    for id in active {
+                        let auth = SchedulerFaultRecoveryAuthority::assume_runtime_owner();
+                        if let Err(e) = w.runtime.resolve_scheduler_fault(&auth, id, [0xAB; 32]) {
+                            return Outcome::violation("fault_resolution_failed", format!("{e:?}"));
+                        }
+                        ctx.hit("reach.fault_resolved");
+                    }
+                }
+                Op::Pass => {
+                    if let Err(v) = self.one_pass(&mut w, &mut model, &intents, &broken_wl, global_max, oi, ctx, &mut nontrivial) {
+                        return v;
+                    }
+                }
+            }
+        }
+        if nontrivial {
+            ctx.nontrivial(&serde_json::to_vec(self).unwrap_or_default());
+        }
         Outcome::Ok
+    }
+
+    fn shrink_candidates(&self) -> Vec<Self> {
+        let mut out = Vec::new();
+        for i in 0..self.ops.len() {
+            let mut s = self.clone();
+            s.ops.remove(i);
+            out.push(s);
+        }
+        if self.world.worldlines.len() > 1 {
+            let last = self.world.worldlines.len() - 1;
+            let id = self.world.worldlines[last].id;
+            let mut s = self.clone();
+            s.world.worldlines.pop();
+            s.ops.retain(|o| match o {
+                Op::Deliver(i) => i.wl() != id,
+                Op::Poke(Poke::FrontierMax { wl } | Poke::DeleteRoot { wl }) => *wl != id,
+                _ => true,
+            });
+            out.push(s);
+        }
+        for (oi, op) in self.ops.iter().enumerate() {
+            if let Op::Deliver(i) = op {
+                if i.prog.steps.len() > 1 {
+                    for si in 0..i.prog.steps.len() {
+                        let mut s = self.clone();
+                        if let Op::Deliver(x) = &mut s.ops[oi] {
+                            x.prog.steps.remove(si);
+                        }
+                        out.push(s);
+                    }
+                }
+            }
+        }
+        if self.world.workers > 1 {
+            let mut s = self.clone();
+            s.world.workers = 1;
+            out.push(s);
+        }
+        out
+    }
+}
+
+impl C09 {
+    #[allow(clippy::too_many_arguments)]
+    fn one_pass(&self, w: &mut World, model: &mut RefRuntime, intents: &BTreeMap<[u8; 32], Intent>, broken_wl: &BTreeSet<u8>, global_max: bool, oi: usize, ctx: &mut RunCtx, nontrivial: &mut bool) -> Result<(), Outcome> {
+        let fp_r = w.fp_runtime();
+        let fp_p = w.fp_provenance();
+        let fp_e = w.fp_engine();
+        let order_before = SchedulerCoordinator::peek_order(&w.runtime);
+        let faults_before = w.runtime.scheduler_fault_count();
+        let fault_ids_before: BTreeSet<_> = w.runtime.scheduler_faults().map(|f| f.fault_id).collect();
+        let gt_before = w.runtime.global_tick();
+        let runtime_faulted = w.runtime.is_runtime_faulted();
+        let ticks_before: BTreeMap<u8, u64> = self.world.worldlines.iter().map(|wl| (wl.id, w.runtime.worldlines().get(&wl_id(wl.id)).map_or(0, |f| f.frontier_tick().as_u64()))).collect();
+        let head_dbg_before: BTreeMap<usize, String> = model.heads.iter().enumerate().map(|(i, h)| (i, format!("{:?}", w.runtime.heads().get(&h.key)))).collect();
+        // heads the reference expects to commit, in canonical order
+        let expected: Vec<usize> = model
+            .heads
+            .iter()
+            .enumerate()
+            .filter(|(i, h)| order_before.contains(&h.key) && !model.admissible(*i).is_empty())
+            .map(|(i, _)| i)
+            .collect();
+        // peek_order must be the canonical (key-sorted) order restricted to runnable heads
+        let mut sorted = order_before.clone();
+        sorted.sort();
+        if sorted != order_before {
+            return Err(Outcome::violation("head_order_not_canonical", format!("peek_order {order_before:?}")));
+        }
+        let result = w.pass();
+        ctx.count("time.passes", 1);
+        ctx.trace_str(&format!("{result:?}"));
+        match result {
+            PassResult::Ok(records) => {
+                if runtime_faulted {
+                    return Err(Outcome::violation("pass_ran_under_runtime_fault", format!("op#{oi}")));
+                }
+                let got: Vec<_> = records.iter().map(|r| r.head_key).collect();
+                let exp: Vec<_> = expected.iter().map(|i| model.heads[*i].key).collect();
+                if got != exp {
+                    return Err(Outcome::violation("committed_heads_mismatch", format!("op#{oi}: records {got:?} expected (canonical order of heads with admissible work) {exp:?}")));
+                }
+                if w.runtime.global_tick().as_u64() != gt_before.as_u64() + 1 {
+                    return Err(Outcome::violation("global_tick_not_plus_one", format!("{:?} -> {:?}", gt_before, w.runtime.global_tick())));
+                }
+                if w.runtime.scheduler_fault_count() != faults_before {
+                    return Err(Outcome::violation("fault_recorded_on_successful_pass", format!("op#{oi}")));
+                }
+                let mut per_wl: BTreeMap<u8, u64> = BTreeMap::new();
+                for (r, ix) in records.iter().zip(&expected) {
+                    let h_wl = model.heads[*ix].wl;
+                    // lawful conflicts: expected applied/rejected vector from declared footprints
+                    let pre_abs_unavailable = ();
+                    let _ = pre_abs_unavailable;
+                    let batch = model.commit(*ix);
+                    if r.admitted_count != batch.len() {
+                        return Err(Outcome::violation("admitted_count_mismatch", format!("op#{oi} head {:?}: admitted {} reference batch {}", r.head_key, r.admitted_count, batch.len())));
+                    }
+                    *per_wl.entry(h_wl).or_insert(0) += 1;
+                    let exp_tick = ticks_before.get(&h_wl).copied().unwrap_or(0) + per_wl[&h_wl];
+                    if r.worldline_tick_after.as_u64() != exp_tick {
+                        return Err(Outcome::violation("worldline_tick_accounting", format!("head {:?}: tick_after {} expected {exp_tick}", r.head_key, r.worldline_tick_after.as_u64())));
+                    }
+                    if r.commit_global_tick.as_u64() != gt_before.as_u64() + 1 {
+                        return Err(Outcome::violation("commit_global_tick_mismatch", format!("{:?}", r.commit_global_tick)));
+                    }
+                    // receipt: entries in canonical scope-hash order, rejected iff conflicting with an earlier applied entry
+                    if let Err(v) = self.check_receipt(w, h_wl, exp_tick - 1, &batch, intents, ctx) {
+                        return Err(v);
+                    }
+                }
+                for wl in &self.world.worldlines {
+                    let now = w.runtime.worldlines().get(&wl_id(wl.id)).map_or(0, |f| f.frontier_tick().as_u64());
+                    let exp = ticks_before[&wl.id] + per_wl.get(&wl.id).copied().unwrap_or(0);
+                    if now != exp && !broken_wl.contains(&wl.id) {
+                        return Err(Outcome::violation("worldline_tick_accounting", format!("worldline {}: frontier {now} expected {exp}", wl.id)));
+                    }
+                }
+                // heads with nothing to admit are untouched
+                for (i, h) in model.heads.iter().enumerate() {
+                    if !expected.contains(&i) {
+                        let now = format!("{:?}", w.runtime.heads().get(&h.key));
+                        if head_dbg_before.get(&i) != Some(&now) {
+                            return Err(Outcome::violation("idle_head_touched", format!("head {:?} changed although it had nothing to admit", h.key)));
+                        }
+                    }
+                }
+                if records.len() >= 2 {
+                    *nontrivial = true;
+                    ctx.hit("reach.multi_head_pass");
+                }
+            }
+            failed => {
+                let (is_panic, msg) = match &failed {
+                    PassResult::Err(e) => (false, e.clone()),
+                    PassResult::Panic(p) => (true, p.clone()),
+                    PassResult::Ok(_) => (false, String::new()),
+                };
+                if runtime_faulted {
+                    if !msg.contains("SchedulerRuntimeFaultActive") {
+                        return Err(Outcome::violation("runtime_fault_not_blocking", format!("op#{oi}: {msg}")));
+                    }
+                    ctx.hit("reach.pass_blocked_by_runtime_fault");
+                } else {
+                    // a pass may only fail if some head had work (or the global tick overflowed)
+                    if expected.is_empty() && !global_max {
+                        return Err(Outcome::violation("pass_failed_without_work", format!("op#{oi}: {msg}")));
+                    }
+                    let added = w.runtime.scheduler_fault_count() - faults_before;
+                    if added != 1 {
+                        // a head that is already quarantined cannot fault again; an identical fault id may be reused
+                        if !(added == 0 && msg.contains("Overflow")) {
+                            return Err(Outcome::violation("fault_record_count", format!("op#{oi}: {added} fault records added; {msg}")));
+                        }
+                    }
+                    if is_panic {
+                        ctx.hit("reach.pass_panicked");
+                    }
+                    if msg.contains("FrontierTickOverflow") {
+                        ctx.hit("fault.frontier_tick_overflow");
+                    } else if msg.contains("GlobalTickOverflow") {
+                        ctx.hit("fault.global_tick_overflow");
+                    } else if msg.contains("UnknownWarp") {
+                        ctx.hit("fault.missing_root_instance");
+                    } else if msg.contains("FootprintViolation") {
+                        ctx.hit("fault.footprint_violation");
+                    } else if msg.contains("program panic") {
+                        ctx.hit("fault.executor_panic");
+                    } else if msg.contains("InternalCorruption") || msg.contains("Engine(") {
+                        ctx.hit("fault.inapplicable_op");
+                    }
+                    if expected.len() >= 2 {
+                        *nontrivial = true;
+                        ctx.hit("reach.failed_pass_with_other_heads_pending");
+                    }
+                }
+                // atomicity: everything restored except fault evidence
+                let diff_r: Vec<String> = fp_r.diff(&w.fp_runtime()).into_iter().filter(|f| !EVIDENCE_FIELDS.contains(&f.as_str())).collect();
+                if !diff_r.is_empty() {
+                    return Err(Outcome::violation(format!("failed_pass_left_runtime_changes:{}", diff_r.join("+")), format!("op#{oi} ({msg}): runtime fields changed: {diff_r:?}")));
+                }
+                let diff_p = fp_p.diff(&w.fp_provenance());
+                if !diff_p.is_empty() {
+                    return Err(Outcome::violation(format!("failed_pass_left_provenance_changes:{}", diff_p.join("+")), format!("op#{oi} ({msg})")));
+                }
+                if fp_e != w.fp_engine() {
+                    return Err(Outcome::violation("failed_pass_left_engine_changes", format!("op#{oi} ({msg})")));
+                }
+                if w.runtime.global_tick() != gt_before {
+                    return Err(Outcome::violation("failed_pass_advanced_global_tick", format!("op#{oi}")));
+                }
+                // quarantine: runnable = pre-pass runnable minus quarantined heads
+                let order_after = SchedulerCoordinator::peek_order(&w.runtime);
+                let expect_after: Vec<_> = order_before.iter().copied().filter(|k| !w.runtime.is_head_faulted(k) && !w.runtime.is_runtime_faulted()).collect();
+                if order_after != expect_after {
+                    return Err(Outcome::violation("runnable_after_fault_mismatch", format!("after {order_after:?} expected {expect_after:?}")));
+                }
+                // the recorded fault names a head that was expected to commit, or the runtime
+                if !runtime_faulted {
+                    if let Some(f) = w.runtime.scheduler_faults().find(|f| !fault_ids_before.contains(&f.fault_id)) {
+                        if let SchedulerFaultScope::Head(k) = f.scope {
+                            if !expected.iter().any(|i| model.heads[*i].key == k) {
+                                return Err(Outcome::violation("fault_blames_idle_head", format!("{k:?}")));
+                            }
+                        }
+                    }
+                }
+            }
+        }
+        Ok(())
+    }
+
+    /// Receipt of the tick committed by a head: canonical order and lawful rejections.
+    fn check_receipt(&self, w: &World, wl: u8, tick: u64, batch: &[[u8; 32]], intents: &BTreeMap<[u8; 32], Intent>, ctx: &mut RunCtx) -> Result<(), Outcome> {
+        let entry = match w.provenance.entry(wl_id(wl), WorldlineTick::from_raw(tick)) {
+            Ok(e) => e,
+            Err(e) => return Err(Outcome::violation("provenance_entry_missing", format!("wl {wl} tick {tick}: {e:?}"))),
+        };
+        let Some(receipt) = entry.tick_receipt.as_ref() else { return Ok(()) };
+        // reference: candidates = batch intents whose program decodes; scope = event node (ingress id) in the root instance
+        let root_w = ids::warp(0);
+        let mut cands: Vec<([u8; 32], [u8; 32], Vec<crate::world::prog::Access>)> = Vec::new();
+        for id in batch {
+            let Some(intent) = intents.get(id) else { continue };
+            let scope = NodeId(*id);
+            let rid = rule_id(intent.prog.rule);
+            let sh = warp_core::scope_hash(&rid, &NodeKey { warp_id: root_w, local_id: scope });
+            // previous source of re-parented edges is not needed for conflicts among fresh scope nodes here:
+            // use the live state after the tick only for honest programs (declared set is state-independent except prev-from)
+            let none = |_: &warp_core::EdgeId| None;
+            let (acc, _) = declared_accesses(&intent.prog, root_w, &scope, &none);
+            cands.push((sh, rid, acc));
+        }
+        cands.sort_by(|a, b| (a.0, a.1).cmp(&(b.0, b.1)));
+        let got_order: Vec<[u8; 32]> = receipt.entries().iter().map(|e| e.scope_hash).collect();
+        let exp_order: Vec<[u8; 32]> = cands.iter().map(|c| c.0).collect();
+        if got_order != exp_order {
+            return Err(Outcome::violation("receipt_order_mismatch", format!("wl {wl} tick {tick}: {} entries vs {} expected", got_order.len(), exp_order.len())));
+        }
+        // Rejections are receipts: every rejected entry must conflict (by declared footprints, ignoring the
+        // state-dependent previous-source entry) with an earlier applied one or be explained by that entry.
+        let mut applied: Vec<usize> = Vec::new();
+        for (i, e) in receipt.entries().iter().enumerate() {
+            match e.disposition {
+                TickReceiptDisposition::Applied => applied.push(i),
+                TickReceiptDisposition::Rejected(_) => {
+                    ctx.hit("reach.lawful_rejection_in_runtime_pass");
+                    let blockers = receipt.blocked_by(i);
+                    if blockers.is_empty() {
+                        return Err(Outcome::violation("rejected_without_blockers", format!("wl {wl} tick {tick} entry {i}")));
+                    }
+                }
+            }
+        }
+        // Applied entries must be pairwise independent under the reference predicate.
+        for (x, a) in applied.iter().enumerate() {
+            for b in applied.iter().skip(x + 1) {
+                if accesses_conflict(&cands[*a].2, &cands[*b].2) {
+                    return Err(Outcome::violation("conflicting_rewrites_both_applied", format!("wl {wl} tick {tick}: entries {a} and {b}")));
+                }
+            }
+        }
+        Ok(())
     }
 }
